@@ -465,6 +465,9 @@ type c19Gen struct {
 	budget int
 	id     uint64
 	evs    []tev
+	// deep: nesting up to 6 levels over a reduced alphabet (plain successful CALL frames, at most one successful
+	// Aspect execution per pre join point) - the shapes where trace addresses get long
+	deep bool
 }
 
 func (g *c19Gen) nextID() uint64 { g.id++; return g.id }
@@ -477,7 +480,14 @@ var c19Kinds = []struct {
 var c19Results = []string{"", "halt", "revert"}
 
 func (g *c19Gen) jps(jpType int, depth int) {
-	for n := 0; n < 3 && g.budget > 0 && g.c.Choose(2) == 1; n++ {
+	maxA := 3
+	if g.deep {
+		if jpType != int(atypes.JoinPointRunType_PreContractCall) {
+			return
+		}
+		maxA = 1
+	}
+	for n := 0; n < maxA && g.budget > 0 && g.c.Choose(2) == 1; n++ {
 		g.budget--
 		id := g.nextID()
 		gas := 100000 + id*1000
@@ -486,7 +496,9 @@ func (g *c19Gen) jps(jpType int, depth int) {
 		if depth > 0 {
 			// calls issued from inside the Aspect (transaction-level join points are kept plain)
 			g.children(depth)
-			res = c19Results[g.c.Choose(3)]
+			if !g.deep {
+				res = c19Results[g.c.Choose(3)]
+			}
 		}
 		var out []byte
 		if res == "revert" {
@@ -497,9 +509,16 @@ func (g *c19Gen) jps(jpType int, depth int) {
 }
 
 func (g *c19Gen) children(depth int) {
-	for n := 0; n < 2 && depth < 3 && g.budget > 0 && g.c.Choose(2) == 1; n++ {
+	limit := 3
+	if g.deep {
+		limit = 6
+	}
+	for n := 0; n < 2 && depth < limit && g.budget > 0 && g.c.Choose(2) == 1; n++ {
 		g.budget--
-		k := c19Kinds[g.c.Choose(len(c19Kinds))]
+		k := c19Kinds[0]
+		if !g.deep {
+			k = c19Kinds[g.c.Choose(len(c19Kinds))]
+		}
 		id := g.nextID()
 		gas := 100000 + id*1000
 		var val *big.Int
@@ -510,7 +529,10 @@ func (g *c19Gen) children(depth int) {
 		if k.To != scn.Precompile {
 			g.body(depth + 1)
 		}
-		res := c19Results[g.c.Choose(3)]
+		res := ""
+		if !g.deep {
+			res = c19Results[g.c.Choose(3)]
+		}
 		out := []byte{0xaa, byte(id)}
 		if res == "revert" {
 			out = run.PackRevert("no")
@@ -523,6 +545,17 @@ func (g *c19Gen) body(depth int) {
 	g.jps(int(atypes.JoinPointRunType_PreContractCall), depth)
 	g.children(depth)
 	g.jps(int(atypes.JoinPointRunType_PostContractCall), depth)
+}
+
+// c19StreamDeep: one successful top frame with up to 6 levels below it (see c19Gen.deep).
+func c19StreamDeep(c *mc.Ctx, budget int) []tev {
+	g := &c19Gen{c: c, budget: budget, deep: true}
+	g.evs = append(g.evs, tev{K: 'T', Gas: 5_000_000})
+	g.evs = append(g.evs, tev{K: 'B', From: tAddrs[0], To: tAddrs[1], Input: []byte{1, 2, 3, 4}, Gas: 4_900_000, Value: big.NewInt(0)})
+	g.body(1)
+	g.evs = append(g.evs, tev{K: 'E', Output: []byte{0xee}, GasUsed: 4242})
+	g.evs = append(g.evs, tev{K: 't', Gas: 1_000_000})
+	return g.evs
 }
 
 func c19Stream(c *mc.Ctx, budget int) []tev {
@@ -707,6 +740,7 @@ func c19Conform(s *scn.Scn, answers []scn.Answer) (sig, detail string, events in
 type c19Replay struct {
 	Choices []int        `json:"choices,omitempty"`
 	Budget  int          `json:"budget,omitempty"`
+	Deep    bool         `json:"deep,omitempty"`
 	Scn     *scn.Scn     `json:"scn,omitempty"`
 	Answers []scn.Answer `json:"answers,omitempty"`
 }
@@ -723,7 +757,7 @@ func init() {
 		ID:        "C19",
 		Level:     "model_checking",
 		Technique: "complete enumeration of the well-nested event-stream grammar up to a frame budget, each stream fed directly to callTracer and flatCallTracer under all 8 configurations and judged against the tree the stream denotes (stack-machine model); conformance: real EVM executions with the tracers attached must emit sentences of the grammar and satisfy the same oracle",
-		Rule: "streams = TxStart PreTx? Start Body End PostTx? TxEnd; Body = PreJP{0..3} Child{0..2} PostJP{0..3}; Child = Enter(kind in CALL, STATICCALL, DELEGATECALL, CREATE, CALL to a precompile) Body Exit(result in ok, halt, revert); JP = AspectEnter Child{0..2} AspectExit(result); nesting <= 3; at most B frames + Aspect executions in total; every frame and Aspect execution has its own gas / gas-used identity. Oracle: no panic; result parses; nested result has every call exactly once under the frame or Aspect execution that issued it and every Aspect execution with its own gas used, output and error; flat result: frame count, subtraces == emitted children, trace addresses distinct and prefix-closed, every frame identity exactly once. Conformance family: depth-3 scenario chains with Aspects bound everywhere and failing answers, tracers attached to the real EVM. non-trivial = distinct streams with at least one Aspect execution",
+		Rule: "streams = TxStart PreTx? Start Body End PostTx? TxEnd; Body = PreJP{0..3} Child{0..2} PostJP{0..3}; Child = Enter(kind in CALL, STATICCALL, DELEGATECALL, CREATE, CALL to a precompile) Body Exit(result in ok, halt, revert); JP = AspectEnter Child{0..2} AspectExit(result); nesting <= 3; at most B frames + Aspect executions in total; plus deep streams (nesting <= 6 over successful CALL frames and single pre-join-point Aspect executions, at most 7 / 9 of them); every frame and Aspect execution has its own gas / gas-used identity. Oracle: no panic; result parses; nested result has every call exactly once under the frame or Aspect execution that issued it and every Aspect execution with its own gas used, output and error; flat result: frame count, subtraces == emitted children, trace addresses distinct and prefix-closed, every frame identity exactly once. Conformance family: depth-3 scenario chains with Aspects bound everywhere and failing answers, tracers attached to the real EVM. non-trivial = distinct streams with at least one Aspect execution",
 		Assumptions: []string{"under onlyTopCall only the top frame and its own Aspect executions are judged"},
 		Bounds: func(t string) map[string]any {
 			return map[string]any{"frame_budget": c19Budget(t), "max_depth": 3, "configurations": len(c19Configs)}
@@ -759,6 +793,34 @@ func init() {
 				}
 			}, func() bool { return w.Expired() })
 			b := c19Budget(w.Tier)
+			// deep shapes first (small family): up to 6 levels of plain calls and Aspect executions, at most 7 (9) of them
+			db := 7
+			if w.Thorough() {
+				db = 9
+			}
+			mc.Explore(0, func(c *mc.Ctx) {
+				evs := c19StreamDeep(c, db)
+				if !w.Mine() {
+					return
+				}
+				sig, detail := c19Judge(evs)
+				w.Evals += int64(len(c19Configs))
+				w.Transitions += int64(len(evs) * len(c19Configs))
+				txt := streamText(evs)
+				h := fw.Hash("deep", txt)
+				w.State(h)
+				if strings.Contains(txt, "A") {
+					w.Nontrivial(h)
+				}
+				w.Extra("deep_streams", 1)
+				if sig == "harness" {
+					w.Notes = append(w.Notes, "HARNESS ERROR: C19 "+detail)
+					return
+				}
+				if sig != "" {
+					w.Violate(sig, detail+"\nstream: "+txt, c19Replay{Choices: c.Choices(), Budget: db, Deep: true})
+				}
+			}, func() bool { return w.Expired() })
 			mc.Explore(0, func(c *mc.Ctx) {
 				evs := c19Stream(c, b)
 				if !w.Mine() {
@@ -795,7 +857,13 @@ func init() {
 				sig, detail, _ = c19Conform(rp.Scn, rp.Answers)
 			} else {
 				var evs []tev
-				mc.Replay(rp.Choices, func(c *mc.Ctx) { evs = c19Stream(c, rp.Budget) })
+				mc.Replay(rp.Choices, func(c *mc.Ctx) {
+					if rp.Deep {
+						evs = c19StreamDeep(c, rp.Budget)
+					} else {
+						evs = c19Stream(c, rp.Budget)
+					}
+				})
 				sig, detail = c19Judge(evs)
 			}
 			if sig == "" {
